@@ -514,6 +514,14 @@ def _normalise(d):
     if d["t"] == "gen_terrain":
         for f in ("xr", "yr", "fe"):
             d.setdefault(f, None)
+    if d["t"] == "prox" and d.get("backend") == "dask" and d.get("md") is not None:
+        # stated domain of the dask path (property C07): the halo, in cells, must not exceed the raster's own height/width, unless max_distance
+        # reaches the raster's extent (single-block path).  raster(): y step 1.0, x step 0.5
+        h, w = d.get("shape") or (6, 7)
+        ey, ex = (h - 1) * 1.0, (w - 1) * 0.5
+        extent = (ey + ex) if d.get("metric") == "MANHATTAN" else (ey * ey + ex * ex) ** 0.5
+        if d["md"] < extent and (int(d["md"] / 1.0 + 0.5) > h or int(d["md"] / 0.5 + 0.5) > w):
+            d["backend"] = "numpy"
     if d["t"] == "classify":
         fn = d["fn"]
         if fn == "binary":
